@@ -20,6 +20,7 @@ mod c07;
 mod c08;
 mod c09;
 mod c11;
+mod c12;
 mod sendsys;
 mod chan;
 
@@ -76,6 +77,7 @@ fn main() {
             "C08" => c08::replay(&v["replay"]),
             "C09" => c09::replay(&v["replay"]),
             "C11" => c11::replay(&v["replay"]),
+            "C12" => c12::replay(&v["replay"]),
             _ => {
                 eprintln!("no replay for {}", id);
                 std::process::exit(2);
@@ -102,6 +104,7 @@ fn main() {
             "C08" => c08::run(thorough),
             "C09" => c09::run(thorough),
             "C11" => c11::run(thorough),
+            "C12" => c12::run(thorough),
             other => {
                 eprintln!("unknown check {}", other);
                 2
